@@ -35,7 +35,21 @@ var verifDir = func() string {
 	return "/verif"
 }()
 
-const repoDir = "/repo"
+// repoDir is the tree under verification: /repo for every registered command; VERIF_REPO points
+// it at a scratch worktree when a seeded change is tried without touching /repo.
+var repoDir = func() string {
+	if d := os.Getenv("VERIF_REPO"); d != "" {
+		return d
+	}
+	return "/repo"
+}()
+
+func evidenceDir() string {
+	if d := os.Getenv("VERIF_EVIDENCE_DIR"); d != "" {
+		return d
+	}
+	return filepath.Join(verifDir, "evidence")
+}
 
 // HSpec describes one gossa harness.
 type HSpec struct {
@@ -178,6 +192,7 @@ func main() {
 		}
 	}
 	rc.deadline = rc.t0.Add(*budget)
+	gossa.RepoPrefix = repoDir + "/"
 	rc.known = loadKnown()
 	for _, k := range rc.known {
 		if k.Status == "known" {
@@ -236,7 +251,7 @@ func readOverlayDir(dir, pkgRel string, withAux bool, auxFiles map[string]bool) 
 		if err != nil {
 			return nil, "", err
 		}
-		if pkgName == "" {
+		if pkgName == "" && !strings.HasSuffix(en.Name(), "_shared.go") {
 			for _, line := range strings.Split(string(b), "\n") {
 				if strings.HasPrefix(line, "package ") {
 					pkgName = strings.TrimSpace(strings.TrimPrefix(line, "package "))
@@ -245,6 +260,19 @@ func readOverlayDir(dir, pkgRel string, withAux bool, auxFiles map[string]bool) 
 			}
 		}
 		ov[filepath.Join(repoDir, pkgRel, en.Name())] = b
+	}
+	// files named *_shared.go serve several target packages: their package clause follows the directory's
+	for k, b := range ov {
+		if strings.HasSuffix(k, "_shared.go") && pkgName != "" {
+			lines := strings.SplitN(string(b), "\n", -1)
+			for i, line := range lines {
+				if strings.HasPrefix(line, "package ") {
+					lines[i] = "package " + pkgName
+					break
+				}
+			}
+			ov[k] = []byte(strings.Join(lines, "\n"))
+		}
 	}
 	return ov, pkgName, nil
 }
@@ -616,9 +644,9 @@ func (rc *runCtx) finish() int {
 		"wall_s":      round2(wall),
 		"violations":  len(rc.violations),
 	}
-	os.MkdirAll(filepath.Join(verifDir, "evidence"), 0o755)
+	os.MkdirAll(evidenceDir(), 0o755)
 	b, _ := json.MarshalIndent(ev, "", " ")
-	os.WriteFile(filepath.Join(verifDir, "evidence", p.ID+".json"), b, 0o644)
+	os.WriteFile(filepath.Join(evidenceDir(), p.ID+".json"), b, 0o644)
 	fmt.Printf("property %s tier %s: paths=%d queries=%d replays=%d violations=%d known=%d broken=%d wall=%.1fs\n",
 		p.ID, rc.tier, rc.states, rc.queries, rc.replays, len(rc.violations), len(rc.knownSeen), len(rc.broken), wall)
 	if len(rc.violations) > 0 {
